@@ -26,7 +26,7 @@ def vmStep (ops : HeapOps H) (s : St H) : StepRes (St H) Fault :=
 
 /-- The error arm of `run_count` (after the fix): wipe the stack, `sp = 0`, `bp = 0`,
     `ep = usize::MAX`, `acc = Undefined`. The heap — where every completed definition and
-    mutation lives — is untouched. -/
+    mutation lives — is untouched by the reset (the collection that follows is `gc`, see `runEval`). -/
 def onError (s : St H) : St H :=
   { s with stack := { cells := List.replicate s.stack.cells.length .undefined, sp := 0 },
            bp := 0, ep := usizeMax, acc := .undefined }
@@ -43,11 +43,20 @@ inductive EvalRes (H : Type)
   | paused (s : St H)
   | fuel
 
-/-- one `run_count(count)` call with its epilogues; `gc` is the collector -/
+/-- the collector touches only the heap: true of `run_gc`, which marks and sweeps and reads — never
+    writes — the stack and the registers. An explicit hypothesis wherever the state after a
+    collection is described. -/
+def GcRegs (gc : St H → St H) : Prop :=
+  ∀ s, (gc s).stack = s.stack ∧ (gc s).acc = s.acc ∧ (gc s).ep = s.ep ∧ (gc s).bp = s.bp ∧
+    (gc s).ipL = s.ipL ∧ (gc s).ipO = s.ipO
+
+/-- one `run_count(count)` call with its epilogues; `gc` is the collector. The error arm ends with
+    a collection, like the success arm (run.rs: `self.run_gc()` after the reset): what the failed
+    evaluation allocated is garbage. -/
 def runEval (ops : HeapOps H) (gc : St H → St H) (count : Option Nat) (fuel : Nat) (s : St H) : EvalRes H :=
   match runLoop ⟨vmStep ops, gc⟩ count fuel 0 s with
   | .done s' => .value (gc (onDone s'))
-  | .error f s' => .failed f (onError s')
+  | .error f s' => .failed f (gc (onError s'))
   | .paused s' => .paused s'
   | .fuel => .fuel
 
